@@ -82,3 +82,11 @@ def text_of_model(model, text):
             break
         out.append(c)
     return A.decode(out), out
+
+
+def any_instance(text, cons, timeout_s=30):
+    """some text satisfying the constraints (for shapes that fail without any search)"""
+    r = check("instance", cons, timeout_s)
+    if r.model is None:
+        return None
+    return text_of_model(r.model, text)[0]
